@@ -445,8 +445,10 @@ fn run_light(bytes: &std::sync::Arc<Vec<u8>>, p: PlanRef) -> Result<Result<Light
     })
 }
 
+/// "An error reported by some call". The verdict "this password is wrong" (the inner Err of by_index_decrypt, under an outer
+/// Ok) is an ANSWER, not a report of the failure: for a password the failure-free run accepts it is a different result.
 fn robs_has_err(o: &RObs) -> bool {
-    o.open.is_err() || o.entries.iter().any(|e| e.content.is_err())
+    o.open.is_err() || o.entries.iter().any(|e| matches!(&e.content, Err(m) if m != "open: invalid password"))
 }
 
 fn check_reader(s: &c09::Scn, route: u8, base: &RObs, devs: &[(u64, Dev)], st: &mut Stats, order: u64) {
